@@ -75,6 +75,29 @@ def handle (op : String) (j : Json) : Except String Json := do
         some ((((sizes.zip ign).take x.1).filter (fun y => !y.2)).map (·.1) |>.sum |> (· + x.2.toNat)) else none) pts
     let f := fun (g : List Nat) => Json.mkObj [("g", natList g)]
     pure (reply (optJ f m) (some (optJ f s)))
+  | "globalise" =>
+    let clip ← (← j.getObjVal? "clip").getBool?
+    let zs := (← getIvZs j).map (fun z => { z with c := encodeIdx ign z.c })
+    let f := fun (l : List (Nat × Nat)) => natListList (l.map (fun x => [x.1, x.2]))
+    let m := match Base.omap (globaliseZ isz clip) zs with
+      | none => raised
+      | some gl => match Base.omap (toLocalIv isz) gl with
+        | none => raised
+        | some back => Json.mkObj [("se", f gl), ("gi", f gl), ("back", ivJ back)]
+    -- specification, written on the original chromosome list: sum of the included sizes before the entry's chromosome,
+    -- the stop cut at the entry's own chromosome
+    let before := fun (c : Nat) => (((sizes.zip ign).take c).filter (fun y => !y.2)).map (·.1) |>.sum
+    let sp := Base.omap (fun (z : IvZ) =>
+      let sz := sizes.getD z.c 0
+      if 0 ≤ z.s ∧ z.s < (sz : Int) ∧ z.s ≤ z.e ∧ (clip ∨ z.e ≤ (sz : Int)) then
+        some ((before z.c + z.s.toNat, before z.c + (if z.e ≤ (sz : Int) then z.e.toNat else sz)),
+              (encodeIdx ign z.c, z.s.toNat, (if z.e ≤ (sz : Int) then z.e.toNat else sz)))
+      else none) (← getIvZs j)
+    let s := match sp with
+      | none => raised
+      | some l => Json.mkObj [("se", f (l.map (·.1))), ("gi", f (l.map (·.1))),
+          ("back", natListList (l.map (fun x => [x.2.1, x.2.2.1, x.2.2.2])))]
+    pure (reply m (some s))
   | "g2l" =>
     let gs ← getNatList j "gs"
     let f := fun (l : List (Nat × Nat)) => Json.mkObj [("cp", natListList (l.map (fun x => [x.1, x.2])))]
